@@ -16,6 +16,10 @@ correspondence: level A: _request_with_retry / _post_with_retry / _options_with_
                 alone vs M_Retry.run_delay.  level B: the real client (http_connect proxy, HttpStreamSession) against the
                 in-process server through the same transport: requests to the operation's URL, externalisation, final
                 vs M_Retry.run_op, for unary / init / continuation / exchange / cancel (also on a cancelled session).
+                histories: exchange() / cancel() / close() in any order on ONE session (live exchange stream, producer stream
+                after init, stream finished at init) with faults on any of its POSTs (never sent / delivered-response-lost /
+                5xx / 429 / 413): per operation (requests, final) vs M_Retry.run_hist; cancel requests are recognised on the
+                wire by their vgi_rpc.cancel metadata and counted per session, server-side on_cancel / process runs too.
 oracle        : the statement's own predicate evaluated on what the implementation did (independent of the model).
 
 Readings adopted where the statement leaves room
@@ -169,6 +173,7 @@ def run(ctx: Any) -> None:
             "P_C38": [
                 "C38_sends_le_max_plus_1", "C38_resend_only_after_retryable", "C38_one_wait_per_resend", "C38_delay_in_0_backoff_max",
                 "C38_compute_delay_in_0_backoff_max", "C38_final_classes", "C38_exchange_cancel_once_plus_413", "C38_no_config_single_send",
+                "C38_session_cancel_at_most_once", "C38_session_silent_after_cancel", "C38_session_each_operation",
             ],
             "T_Retry": ["compute_delay_tie", "guard_conn_tie", "guard_disconnect_tie", "guard_status_tie", "loop_fuel_tie", "default_config_tie",
                         "exchange_sites_tie", "cancel_sites_tie", "continuation_sites_tie", "unary_sites_tie",
@@ -421,6 +426,35 @@ def run(ctx: Any) -> None:
         ctx.notes.append(f"HttpRetryConfig(backoff_max=nan): {type(e).__name__} (the documented edge of R_C38.v no longer reproduces)")
 
     ctx.log("delay comparison done")
+    def xcode(op: str, cfg: dict[str, Any] | None, f: tuple[Any, ...], n: int, ev: list[Any], rep: dict[str, Any]) -> str:
+        """what one client operation ended with, as M_Retry.xfinal_code"""
+        last_status = None
+        if ev:
+            last = ev[-1]
+            if last[0] == "resp":
+                last_status = last[1]
+            elif last[0] == "pass":
+                retryable = cfg["retryable"] if cfg is not None else []
+                if last[1] in retryable or last[1] in (413, 415):
+                    ctx.obligation("harness:passthrough-status", "harness", False, f"in-process server answered {last[1]} on {op}")
+                last_status = 200
+        if op.startswith("cancel") or op == "close":
+            return "(10%N, 0%N)" if f[0] == "ok" else "(98%N, 0%N)"
+        if f[0] == "transient":
+            return f"(1%N, {f[1]}%N)"
+        if f[0] == "raise":
+            return f"({KIND_CODE[f[1][0]]}%N, 0%N)"
+        if f[0] == "crash":
+            ctx.violation("client-op-crash-" + str(f[1]), f"{op}: unexpected {f[1:]}", rep)
+            return "(99%N, 0%N)"
+        if f[0] == "rpcerror" and f[1] in ("RequestTooLarge", "ExternalUploadFailed"):
+            return "(9%N, 0%N)"
+        if f[0] == "rpcerror" and f[1] == "ProtocolError" and n == 0 and "cancelled" in f[2]:
+            return "(11%N, 0%N)"
+        if f[0] == "rpcerror" and f[1] == "ProtocolError" and n == 0 and "finished" in f[2]:
+            return "(8%N, 0%N)"
+        return f"(0%N, {last_status if last_status is not None else 97}%N)"
+
     # ---- level B: client operations ----------------------------------------------------------------
     apps = drv.make_apps()
     OPC = {"unary": "OpUnary", "init": "OpInit", "cont": "OpCont", "exchange": "OpExchange", "cancel": "OpCancel",
@@ -479,36 +513,7 @@ def run(ctx: Any) -> None:
             lim = (cfg["max_retries"] + 1) if cfg is not None else 1
             if n > lim:
                 ctx.violation("retry-sends-exceed-max-plus-1", f"{op}: {n} requests with limit {lim}", rep)
-        # final code for the model
-        f = r["final"]
-        ev = r["events"]
-        last_status = None
-        if ev:
-            last = ev[-1]
-            if last[0] == "resp":
-                last_status = last[1]
-            elif last[0] == "pass":
-                retryable = cfg["retryable"] if cfg is not None else []
-                if last[1] in retryable or last[1] in (413, 415):
-                    ctx.obligation("harness:passthrough-status", "harness", False, f"in-process server answered {last[1]} on {op}")
-                last_status = 200
-        if op.startswith("cancel"):
-            code = "(10%N, 0%N)" if f[0] == "ok" else "(98%N, 0%N)"
-        elif f[0] == "transient":
-            code = f"(1%N, {f[1]}%N)"
-        elif f[0] == "raise":
-            code = f"({KIND_CODE[f[1][0]]}%N, 0%N)"
-        elif f[0] == "crash":
-            code = "(99%N, 0%N)"
-            ctx.violation("client-op-crash-" + str(f[1]), f"{op}: unexpected {f[1:]}", rep)
-        elif f[0] == "rpcerror" and f[1] in ("RequestTooLarge", "ExternalUploadFailed"):
-            code = "(9%N, 0%N)"
-        elif f[0] == "rpcerror" and f[1] == "ProtocolError" and n == 0 and "cancelled" in f[2]:
-            code = "(11%N, 0%N)"
-        elif f[0] == "rpcerror" and f[1] == "ProtocolError" and n == 0 and "finished" in f[2]:
-            code = "(8%N, 0%N)"
-        else:
-            code = f"(0%N, {last_status if last_status is not None else 97}%N)"
+        code = xcode(op, cfg, r["final"], n, r["events"], rep)
         ext_seen = any(u.endswith("/health") or "__upload_url__" in u or "//store/" in u for _, u in r["aux"])
         ccfg = "None" if cfg is None else f"(Some {_ccfg(cfg)})"
         b_cases.append((f"({OPC[op]}, {ccfg}, {_clist([_cout(o) for o in sc])}, {str(ext).lower()})", f"({n}%N, {str(ext_seen).lower()}, {code})"))
@@ -519,6 +524,84 @@ def run(ctx: Any) -> None:
     ctx.obligation("correspondence:M_Retry.run_op", "correspondence", ok and not bad, clog if not ok else f"{len(bad)} of {len(b_cases)} cases disagree")
     for i in bad[:3]:
         ctx.violation("model-impl-disagree-client-op", "client operation and model behave differently", {**b_rep[i], "model": ctx.coq_show(HEADER, f"run_op {b_cases[i][0]}")[-300:]})
+
+    # ---- histories of operations on one stream session ---------------------------------------------------
+    # [cancel(fault), cancel, cancel, close], exchange-then-cancel, init-then-cancel, ...: per session at most one cancel
+    # request ever leaves the client, nothing after cancel(), each exchange() at most once (+ one resend after 413)
+    HOP = {"exchange": "HExchange", "cancel": "HCancel", "close": "HClose"}
+    START = {"live": "SLive", "producer": "SLive", "finished": "SFinished"}
+    H_FAULTS: list[tuple[Any, ...]] = [
+        ("conn",), ("timeout", "ReadTimeout", "delivered"), ("timeout", "ConnectTimeout"), ("timeout", "PoolTimeout"), ("disc",),
+        ("proto", drv.PROTO_OTHER_MSGS[0], "delivered"), ("other", "ReadError"), ("resp", 503, None), ("resp", 429, ("float", "1", 1.0)),
+        ("resp", 500, None), ("resp", 502, None), ("resp", 413, None), ("resp", 200, None),
+    ]
+    h_in: list[tuple[str, dict[str, Any] | None, list[str], list[tuple[Any, ...]], bool]] = []
+    h_cfgs: list[dict[str, Any] | None] = [None, mk_cfg(2, 0.0, 0.001, DEFAULT_RETRYABLE, True, True)]
+    for flt in H_FAULTS:
+        for cfg in h_cfgs:
+            h_in.append(("live", cfg, ["cancel", "cancel", "cancel", "close"], [flt], True))
+            h_in.append(("live", cfg, ["exchange", "cancel", "cancel"], [("resp", 200, None), flt], True))
+            h_in.append(("live", cfg, ["exchange", "cancel", "exchange", "cancel"], [flt, flt], True))
+            h_in.append(("producer", cfg, ["cancel", "cancel", "close", "cancel"], [flt, flt], True))
+        h_in.append(("live", None, ["exchange", "exchange", "cancel", "cancel"], [flt, ("resp", 413, None), flt, flt], True))
+        h_in.append(("live", None, ["exchange", "cancel", "cancel"], [("resp", 413, None), flt, flt], False))
+        h_in.append(("finished", None, ["cancel", "exchange", "cancel"], [flt], True))
+        h_in.append(("finished", None, ["exchange", "cancel"], [flt], True))
+    for ln in range(1, 5 if quick else 6):
+        for ops in itertools.product(["exchange", "cancel", "close"], repeat=ln):
+            if "cancel" not in ops and ln > 2:
+                continue
+            for _ in range(2 if quick else 6):
+                sc = [rng.choice(H_FAULTS) for _ in range(rng.randrange(1, 5))]
+                h_in.append(("live", rng.choice(h_cfgs), list(ops), sc, rng.random() < 0.85))
+    h_cases: list[tuple[str, str]] = []
+    h_rep: list[dict[str, Any]] = []
+    for start, cfg, ops, sc, ext in h_in:
+        r = drv.run_history(apps, cfg, start, ops, [_strip_ra(o) for o in sc], ext)
+        ctx.count("impl_runs")
+        ctx.count("histories")
+        ctx.case(["H", start, cfg, ops, [list(map(str, o)) for o in sc], ext])
+        ctx.tally("history_len", len(ops))
+        rep = {"level": "history", "start": start, "config": cfg, "ops": ops, "script": [list(map(str, o)) for o in sc], "externalisation_possible": ext,
+               "observed": [{k: (str(v) if k in ("final", "events") else v) for k, v in o.items() if k != "aux"} for o in r["ops"]],
+               "cancel_requests_total": r["cancel_requests_total"], "server_log": r["server_log"]}
+        h_rep.append(rep)
+        want0 = {"live": (False, True), "producer": (False, True), "finished": (True, False)}[start]
+        if (r["state0"]["finished"], r["state0"]["has_token"]) != want0:
+            ctx.obligation("harness:history-start-state", "harness", False, f"start {start}: session state after init is {r['state0']}")
+        # the property's own predicate on the history
+        if r["cancel_requests_total"] > 1 or sum(o["target_sends"] for o in r["ops"] if o["op"] == "cancel") > 1:
+            ctx.violation("cancel-request-sent-more-than-once-per-session", f"{r['cancel_requests_total']} cancel requests left the client for one stream", rep)
+        if r["server_log"].count("on_cancel") > 1:
+            ctx.violation("cancel-processed-twice", "the server ran on_cancel() more than once for one stream", rep)
+        seen_cancel = False
+        for o in r["ops"]:
+            n = o["target_sends"]
+            if seen_cancel and n > 0:
+                ctx.violation("request-sent-after-cancel", f"{o['op']}() sent {n} request(s) on a session that was already cancelled", rep)
+            if o["op"] == "cancel":
+                seen_cancel = True
+                if n > 1:
+                    ctx.violation("cancel-sent-more-than-once", f"cancel() issued {n} requests", rep)
+            elif o["op"] == "exchange":
+                first = o["events"][0] if o["events"] else ("resp", 200, None)
+                if n > 2:
+                    ctx.violation("exchange-sent-more-than-twice", f"exchange() issued {n} requests", rep)
+                elif n == 2 and not (first[0] == "resp" and first[1] == 413):
+                    ctx.violation("exchange-resent-without-413", f"exchange() resent after {first}", rep)
+                if o["server"].count("process") > 1:
+                    ctx.violation("exchange-processed-twice", "the server ran process() twice for one exchange()", rep)
+            elif n > 0:
+                ctx.violation("close-sent-request", f"close() issued {n} requests", rep)
+        outs = [f"({o['target_sends']}%N, {xcode(o['op'], None, o['final'], o['target_sends'], o['events'], rep)})" for o in r["ops"]]
+        h_cases.append((f"({START[start]}, {_clist([HOP[o] for o in ops])}, {_clist([_cout(o) for o in sc])}, {str(ext).lower()})", _clist(outs)))
+    ctx.log("session histories done")
+    ctx.sample({"level": "history", "ops": ["cancel", "cancel", "cancel", "close"], "script": [["timeout", "ReadTimeout", "delivered"]], "expected": "one cancel request in total"})
+    ok, bad, clog = ctx.coq_mismatches(HEADER, "run_hist", "hist_eqb", h_cases, "sess * list hop * list outcome * bool", "list (N * (N * N))")
+    ctx.count("model_cases", len(h_cases))
+    ctx.obligation("correspondence:M_Retry.run_hist", "correspondence", ok and not bad, clog if not ok else f"{len(bad)} of {len(h_cases)} cases disagree")
+    for i in bad[:3]:
+        ctx.violation("model-impl-disagree-session-history", "a history of operations on one session and the model behave differently", {**h_rep[i], "model": ctx.coq_show(HEADER, f"run_hist {h_cases[i][0]}")[-300:]})
 
     ctx.exhaustive = False
     ctx.assumptions += [
